@@ -82,7 +82,7 @@ JudgeC17(e) ==
 \* ReadFile or Generate; what it accepts must be accepted; never a crash or a hang
 C13Dev(x) ==
   IF x.class = "reference to an undefined type" /\ "skipcheck:union_branch_types" \in Devs
-     /\ x.site \in {"union branch struct field", "union branch message field", "array element in union branch struct"}
+     /\ (x.where = "branch" \/ x.site \in {"union branch struct field", "union branch message field", "array element in union branch struct"})
   THEN "skipcheck:union_branch_types"
   ELSE IF x.class = "message index zero" /\ "skipcheck:index_zero" \in Devs THEN "skipcheck:index_zero"
   ELSE IF x.class = "const literal not assignable to its type" /\ "skipcheck:const_range" \in Devs
@@ -92,7 +92,7 @@ C13Dev(x) ==
   ELSE IF x.class = "definition named like a primitive" /\ "skipcheck:union_inner_duplicate" \in Devs
           /\ x.site = "union branch" THEN "skipcheck:union_inner_duplicate"
   ELSE IF x.class = "duplicate field name" /\ "skipcheck:union_branch_field_names" \in Devs
-          /\ x.site \in {"union branch struct", "union branch message"} THEN "skipcheck:union_branch_field_names"
+          /\ (x.where = "branch" \/ x.site \in {"union branch struct", "union branch message"}) THEN "skipcheck:union_branch_field_names"
   ELSE ""
 
 JudgeC13(e) ==
